@@ -9,7 +9,7 @@ for k in 1 2 3; do
   [ -f $D/patch$k.diff ] || continue
   R=$S/repo
   rm -rf $R; mkdir -p $R; (cd /repo && git archive HEAD) | tar -x -C $R
-  cp /repo/Cargo.lock $R/ 2>/dev/null
+  cp /repo/Cargo.lock $R/ 2>/dev/null; find $R/src $R/tests -name "*.rs" -exec touch {} +
   out=$D/result$k.txt; : > $out
   # demo on the clean tree
   cp $D/demo$k.rs $R/tests/demo$k.rs
